@@ -244,7 +244,7 @@ func (h *Handler) saltAuthToken(req *http.Request, remote string) (updatedReq *h
 
 	creds := auth.NewCredentials()
 	creds.LoadTokensFromHTTPRequest(updatedReq)
-	if updatedReq.Header.Get("Content-Type") == "application/x-www-form-urlencoded" {
+	if ct, _, err := mime.ParseMediaType(updatedReq.Header.Get("Content-Type")); err == nil && ct == "application/x-www-form-urlencoded" {
 		// Override ParseForm's 10MiB limit by ensuring
 		// req.Body is a *http.maxBytesReader.
 		updatedReq.Body = http.MaxBytesReader(nil, updatedReq.Body, 1<<28) // 256MiB. TODO: use MaxRequestSize from discovery doc or config.
